@@ -1891,13 +1891,12 @@ class ktensor:
         """
         if mode is not None:
             if isinstance(mode, int) and mode in range(self.ndims):
-                self.normalize(mode)
-                return self.factor_matrices.copy()
+                return self.copy().normalize(mode).factor_matrices
             assert False, "Input parameter'mode' must be in the range of self.ndims"
 
         # all weights are equal to 1
         if np.array_equal(self.weights, np.ones(self.weights.shape)):
-            return self.factor_matrices.copy()
+            return [fm.copy() for fm in self.factor_matrices]
 
         lsgn = np.sign(self.weights)
         D = np.diag(np.power(np.fabs(self.weights), 1.0 / self.ndims))
